@@ -13,7 +13,7 @@ MANIFEST = dict(
           "every surrogate proposal: only grid points are evaluated, none twice, at most max_evals + 3^d, a non-finite value throws, "
           "the returned steps are all evaluations sorted with the minimum first, the loops terminate (fuel never runs out); and of "
           "ml::tune's index -> (trial, fold) decoding, result_t's slots and optimum_trial (bijection, order independence of the stores, "
-          "first argmin of the mean validation error). 24 integer kernels are re-translated from src/tuner*.cpp and "
+          "closest-model read never aliases another task's store, first argmin of the mean validation error). 24 integer kernels are re-translated from src/tuner*.cpp and "
           "src/machine/{tune,result}.cpp on every run. The extracted model must reproduce every observed run of the real tuners "
           "(callback batches, outcome, steps; acceptor search over tie-breaks/proposals) and of ml::tune under its thread pool; the "
           "property's own oracle runs on the implementation and yields a replayable case."),
